@@ -17,12 +17,12 @@ import (
 
 func init() {
 	simrt.Register(&simrt.Scenario{
-		Prop: "C05", Name: "relay-faults", Count: tiered(300, 30000),
+		Prop: "C05", Name: "relay-faults", Count: tiered(450, 30000),
 		Run: func(rc *simrt.RunCtx) { c05Run(rc, true) }, MaxOps: 6 << 20, Horizon: 6 * time.Hour,
 		Doc: "real Server.Accept/Client.Dial + ServerConn/ClientConn + GBN + NoiseGrpcConn over the stub relay with drop / delay / stream errors / failing stream creation / full mailbox until a tape-chosen instant; application loops retry as gRPC does; stream equality, ciphertext-only and progress oracles",
 	})
 	simrt.Register(&simrt.Scenario{
-		Prop: "C05", Name: "relay-clean", Count: tiered(120, 6000),
+		Prop: "C05", Name: "relay-clean", Count: tiered(150, 6000),
 		Run: func(rc *simrt.RunCtx) { c05Run(rc, false) }, MaxOps: 6 << 20, Horizon: 6 * time.Hour,
 		Doc: "same stack and workload over a fault-free relay (separate sub-batch)",
 	})
@@ -59,6 +59,23 @@ func c05RunX(rc *simrt.RunCtx, faults, inject bool) {
 		}
 		return 16 + rc.Pick(120000, "wl.plan")
 	}
+	mode := rc.Pick(6, "wl.mode")
+	switch mode {
+	case 4:
+		// many small writes: more than 500 records per direction on one
+		// connection, i.e. across the key rotation
+		st.planBytes = func(string, int) int { return 16 + 600*40 + rc.Pick(20000, "wl.plan") }
+		st.writeSize = func(string) int { return 1 + rc.Pick(60, "wl.w") }
+	case 5:
+		// idle gaps longer than the ping intervals
+		st.writePause = func(string) time.Duration {
+			if rc.Pick(12, "wl.pause") == 0 {
+				return time.Duration(5500+rc.Pick(9000, "wl.pauselen")) * time.Millisecond
+			}
+			return 0
+		}
+	}
+	rc.Knob("mode", mode)
 	// the client closes a connection once both plans are through; the next
 	// Dial/Accept then yields the next connection of the session
 	st.afterDone = func(in *instance) bool { return in.side == "client" }
